@@ -224,7 +224,9 @@ func (r *FnRun) execCallCommon(st *State, cc *ssa.CallCommon, dst *ssa.Call, pos
 		for _, p := range callee.Params {
 			names = append(names, p.Name())
 		}
+		r.curTypeArgs = callee.TypeArgs()
 		res, nst := r.applyContract(st, c, r.e.relName(callee), callee.Signature, names, args, argt, pos, what)
+		r.curTypeArgs = nil
 		if callee.String() == "fmt.Errorf" {
 			r.errorfWraps(nst, cc, res)
 		}
